@@ -22,7 +22,7 @@ F28 = F25 + "zab"
 F31 = F28 + "cde"
 TOK = ["http://", "https://", "ftp://", "javascript:", "www.", "a.com", "/p", "/abcdefgh",
        "/abcdefghijkl", "?q=1&r=2", '"', "'", "<", ">", "&", "&amp;", "(", ")", ".", " ",
-       "\u00e9", F25, F28, F31]
+       "\u00e9", F25, F28, F31, "HTTPS://", "http\u017f://"]
 
 PERMITTED = [None, ["http", "https", "ftp"], ["http", "https", "javascript"], ["http"], []]   # None = default;
 # the last one makes "https" a scheme that merely *starts with* a permitted one
@@ -295,7 +295,7 @@ class C22(Check):
     level = "exploration"
     design_ref = "DESIGN.md §2 C22"
     rule = ("family A: every concatenation of <= 3 (quick) / <= 4 (thorough) tokens from {http://, "
-            "https://, ftp://, javascript:, www., a.com, /p, /abcdefgh, /abcdefghijkl, ?q=1&r=2, "
+            "https://, HTTPS://, http + U+017F (long s) + ://, ftp://, javascript:, www., a.com, /p, /abcdefgh, /abcdefghijkl, ?q=1&r=2, "
             "\" ' < > & &amp; ( ) . SP e-acute, 25/28/31-char fillers}; family B: proto{http,https,"
             "www.,ftp} + host of 1..40 letters [+ '/' + 0..9 letters] + special{& \" ' &amp; ? . < "
             "e-acute} + tail{'', x, 20 x, /yy, .z}; each x shorten x require_protocol x permitted{"
